@@ -117,6 +117,18 @@ QSum(s) == IF Len(s) = 0 THEN QI(0) ELSE QAdd(s[1], QSum(Tail(s)))
 QClose(obs, S, slack, q) ==
   BLe(BAbs(BSub(BMul(BInt(obs), q[2]), BMul(q[1], BInt(S)))), BMul(BInt(slack), q[2]))
 
+\* the same with an additional absolute tolerance tol (a non-negative rational):
+\*   |obs/S - q| <= slack/S + tol
+QAbs(a) == IF QDef(a) THEN <<BAbs(a[1]), a[2]>> ELSE QUndef
+QCloseTol(obs, S, slack, q, tol) ==
+  BLe(BMul(BAbs(BSub(BMul(BInt(obs), q[2]), BMul(q[1], BInt(S)))), tol[2]),
+      BAdd(BMul(BMul(BInt(slack), q[2]), tol[2]), BMul(BMul(BInt(S), q[2]), tol[1])))
+\* 2^-e as a rational
+RECURSIVE Pow2(_)
+Pow2(e) == IF e = 0 THEN 1 ELSE 2 * Pow2(e - 1)
+RECURSIVE QPow2Inv(_)
+QPow2Inv(e) == IF e <= 15 THEN Q(1, Pow2(e)) ELSE QMul(Q(1, 32768), QPow2Inv(e - 15))
+
 \* S * N / sqrt(D) <= u   (N, D wide integers, D > 0, u native) -- square root removed by squaring
 SqrtLe(N, D, S, u) ==
   IF N[1] >= 0 THEN u >= 0 /\ BLe(BMul(BSq(BInt(S)), BSq(N)), BMul(BSq(BInt(u)), D))
